@@ -45,7 +45,15 @@ func init() {
 }
 
 // plainUplink builds a well-formed plain uplink 5GMM message of varied length with the emulator's own constructors.
+// c06Bulk: the running case is a BULK history - every message a SECURITY MODE COMPLETE with a NAS message container of
+// 20..60 KiB, several hundred of them (12 MiB and more of protected output from one process): storage that is handed out
+// again only after megabytes shows in the long-horizon retention oracle.
+var c06Bulk bool
+
 func plainUplink(r *rand.Rand) ([]byte, string) {
+	if c06Bulk {
+		return nasTestpacket.GetSecurityModeComplete(blockyBytes(r, 20000+r.Intn(40000))), "SecurityModeComplete(bulk)"
+	}
 	if r.Intn(6) == 0 { // plain 5GSM messages (EPD 2e) handed to the protection entry point directly, and more 5GMM kinds
 		psi := uint8(r.Intn(256))
 		switch r.Intn(10) {
@@ -161,6 +169,10 @@ func runC06(c *fw.Case) (o fw.Outcome) {
 	r := c.R
 	iAlg := uint8(1 + c.Idx%2)
 	cAlg := uint8((c.Idx / 2) % 3)
+	c06Bulk = c.Idx%48 == 26
+	if c06Bulk {
+		iAlg, cAlg = 2, uint8(2*((c.Idx/48)%2)) // the AES-based pair or the null cipher: the library's SNOW 3G needs seconds per megabyte
+	}
 	ue := tglib.NewRanUeContext("imsi-"+digits(r, 15), int64(r.Intn(1000)), cAlg, iAlg)
 	copy(ue.KnasEnc[:], rbytes(r, 16))
 	copy(ue.KnasInt[:], rbytes(r, 16))
@@ -179,6 +191,9 @@ func runC06(c *fw.Case) (o fw.Outcome) {
 		if steps > 60 && !c.Thorough() {
 			steps = 60
 		}
+	}
+	if c06Bulk {
+		o.Tag("bulk-history")
 	}
 	profile := (c.Idx / 6) % 3
 	if c.Idx%8 == 7 {
@@ -204,6 +219,7 @@ func runC06(c *fw.Case) (o fw.Outcome) {
 	}()
 	dlAmf := uint32(0)
 	for s := 0; s < steps; s++ {
+		fw.Beat()
 		// Downlink traffic on the same UE context in between (one history in two): whatever the UE receives - plain,
 		// protected with any header type (3/4: a Security Mode Command), a wrong MAC - the uplink COUNT stays where it is;
 		// only SENDING with newSecurityContext resets it.
